@@ -190,7 +190,8 @@ PROPS["C15"] = {
 }
 
 ADDR_STACKS = STACKS + ["mapudp/sim", "mapssh/sim", "p2pke/mapudp/sim", "frag/p2pke/mapudp/sim", "mux-string/p2pke/mapudp/sim", "mapudp/frag/mem", "multi/mem+mapudp/sim", "multi/mapssh/mem+p2pke/mapudp/sim",
-                        "mapudp/sim", "mapssh/sim", "p2pke/mapudp/sim"]
+                        "mapudp/sim", "mapssh/sim", "p2pke/mapudp/sim",
+                        "p2pke/mapssh/sim", "p2pke/p2pke/sim", "frag/p2pke/mapssh/sim", "multi/mem+p2pke/mapssh/sim"]
 PROPS["C16"] = {
     "pkg": "stk", "env": {"SIM_PROP": "C16"}, "legs": ADDR_STACKS,
     "runs": {"quick": 1900, "thorough": 100000}, "budget": {"quick": 200, "thorough": 2400},
